@@ -207,8 +207,8 @@ theorem renderHints_wBoth (ws : List Str) :
 theorem renderHints_append (a b : List Hint) : renderHints (a ++ b) = renderHints a ++ renderHints b := by
   simp [renderHints]
 
-theorem hasInfix_hinted (c : CodeLine) (h : c.hints ≠ []) : hasInfix (' ' :: m13) (renderCode c) = true := by
-  rw [hasInfix_iff, renderCode_hinted c h, hintPart, List.replicate_succ']
+theorem hasInfix_hinted (c : CodeLine) (h : c.hints ≠ []) : hasInfix m13 (renderCode c) = true := by
+  rw [hasInfix_iff, renderCode_hinted c h, hintPart]
   refine ⟨c.code ++ List.replicate c.pad ' ', renderHints c.hints, ?_⟩
   simp
 
@@ -218,7 +218,7 @@ theorem addMarker_render (c : CodeLine) (ok : (OkCode O) c) (hs : List Hint) (hn
     addMarker (renderCode c) ++ renderHints hs = renderCode (c.addHints hs) := by
   have hne' : c.hints ++ hs ≠ [] := by simp [hne]
   by_cases h : c.hints = []
-  · have : hasInfix (' ' :: m13) c.code = false := hasInfix_sp_m13_false ok.nom
+  · have : hasInfix m13 c.code = false := by simpa [noM13] using ok.nom
     simp [addMarker, renderCode_plain c h, this, renderCode, CodeLine.addHints, h, hne]
   · rw [addMarker, if_pos (hasInfix_hinted c h)]
     simp [renderCode, CodeLine.addHints, h, renderHints_append]
